@@ -231,6 +231,21 @@ def check(rules, ruleinfo, text, cache=None):
             return dict(bucket=f'modelgen:{type(e).__name__}', oracle='the generated model module loads', observed=str(e)[:300], grammar=gtext), info
         if cache is not None:
             cache.update(model=model, gsem=gsem)
+    # the generated parser as a fourth route: its own plain parse vs its own asmodel=True parse
+    gcls = cache.get('gcls') if cache is not None else None
+    if gcls is None and (cache is None or 'gcls' not in cache):
+        try:
+            psrc = tatsu.to_python_sourcecode(gtext, name=f'Vf07p{os.getpid()}x{_n[0]}')
+            pmod = tu.load_generated(psrc, 'vf07parser')
+            gcls = tu.find_parser_class(pmod)
+            if cache is not None:
+                cache['pmod'] = pmod
+            else:
+                tu.unload(pmod)
+        except Exception:
+            gcls = None   # C02's subject
+        if cache is not None:
+            cache['gcls'] = gcls
     from tatsu.exceptions import ParseException
     try:
         with watchdog(10):
@@ -269,6 +284,22 @@ def check(rules, ruleinfo, text, cache=None):
             msg = navigation(gmodel)
             if msg:
                 return dict(bucket='generated-navigation:' + msg.split(' ')[0][:30], oracle='children / parent / walkers (generated classes)', message=msg), info
+            if gcls is not None:
+                try:
+                    pmarked = gcls().parse(text, start=start, semantics=Marker())
+                except Exception:
+                    return None, info     # the generated parser disagrees about acceptance: C02's subject
+                try:
+                    psynth = gcls().parse(text, start=start, asmodel=True)
+                except Exception as e:
+                    if _builtin_conv_fails(pmarked):
+                        return None, info
+                    return dict(bucket=f'genparser-asmodel:{type(e).__name__}', oracle='model building through the generated parser returns a tree', observed=str(e)[:300]), info
+                r = lockstep(pmarked, psynth, (), False, None)
+                info['genparser'] = True
+                if r:
+                    return dict(bucket='genparser:' + _generic(r[1]), oracle='generated parser with asmodel=True mirrors its own plain AST', path=''.join(r[0]),
+                                message=r[1], plain=tu.canon(_plain(pmarked))), info
     except CaseTimeout:
         info['timeout'] = True
     return None, info
@@ -373,6 +404,8 @@ def run_shard(sh, n):
                     cls.append('base-chain')
                 if 'num' in ruleinfo:
                     cls.append('builtin-type')
+                if info.get('genparser'):
+                    cls.append('generated-parser asmodel route compared')
                 sh.case((gtext.replace(f'{sh.index}x{_tag[0]}', ''), text), info.get('nodes', 0) >= 2 and info.get('nested', 0) > 0, cls,
                         sample=dict(grammar=gtext, input=text, nodes=info.get('nodes')))
                 if d is not None:
@@ -380,6 +413,8 @@ def run_shard(sh, n):
         finally:
             if cache.get('mod') is not None:
                 tu.unload(cache['mod'])
+            if cache.get('pmod') is not None:
+                tu.unload(cache['pmod'])
     hyp_run(sh, gen.rnds(), body, n)
 
 
